@@ -5,7 +5,10 @@
 package main
 
 import (
+	"io"
+
 	"fmt"
+	"github.com/sirupsen/logrus"
 	"os"
 	"sort"
 	"strings"
@@ -86,6 +89,10 @@ func scenarios(thorough bool) []scenario {
 		// Stop walks all subscriptions under the dispatcher lock while an Unsubscribe (second of two) and a Post run
 		{"unsubscribe-vs-stop-vs-post", [][]op{{U(1)}, {X}, {A(1)}}, 2, []op{S(0), S(1)}},
 		{"unsubscribe-twice-vs-stop", [][]op{{U(0), U(0)}, {X}}, 1, []op{S(0)}},
+		// subscriber 0 (A and B) never reads and its buffer (4 events) fills up with B events; subscriber 1 (A only,
+		// registered later) must still get every A event: only the subscriber whose OWN buffer is full may miss one
+		{"full-buffer-of-an-earlier-subscriber", [][]op{{B(1), B(2), B(3), B(4), A(5), A(6)}}, 2, []op{SB(0), S(1)}},
+		{"full-buffer-of-an-earlier-subscriber-vs-poster", [][]op{{B(1), B(2), B(3), B(4), A(5)}, {A(6)}}, 2, []op{SB(0), S(1)}},
 	}
 	if thorough {
 		sc = append(sc,
@@ -169,6 +176,9 @@ func body(sc scenario) func(x *vsched.Exec) {
 		check(x, sc, w)
 	}
 }
+
+// bufCap: per-subscriber buffer size in the rewritten event.go (the repository's 65536 is replaced by prebuild.sh).
+const bufCap = 4
 
 func check(x *vsched.Exec, sc scenario, w *world) {
 	const inf = int64(1) << 62
@@ -278,7 +288,8 @@ func check(x *vsched.Exec, sc scenario, w *world) {
 					}
 					last = p
 				}
-				if wanted && o.err == nil && o.start > subOp.end && o.end < endOfLife && !received {
+				// a subscriber whose own buffer (bufCap events, see prebuild.sh) was full may miss events
+				if wanted && o.err == nil && o.start > subOp.end && o.end < endOfLife && !received && len(got) < bufCap {
 					x.Fail("event-lost", fmt.Sprintf("subscriber %d did not get %s posted strictly inside its subscription (got %v)", si, o, ids))
 				}
 				if received && o.end < subOp.start {
@@ -304,6 +315,7 @@ func check(x *vsched.Exec, sc scenario, w *world) {
 }
 
 func main() {
+	logrus.SetOutput(io.Discard) // the dispatcher logs every event a full buffer drops
 	run := ev.Start("C39", "model_checking")
 	thorough := run.Thorough()
 	bound := run.Pick(2, 3)
